@@ -1,6 +1,7 @@
 package main
 
 import (
+	"fmt"
 	"go/token"
 	"go/types"
 	"os"
@@ -431,6 +432,7 @@ func runC13(c *Ctx) {
 		c.Check(okSrc && n == 1, "C13.U9-decodes-bytes-as-given", f.Name+" › decodes its data parameter", f.SSA.Pos(), "the codec reads from a buffer over the data parameter as handed in", "what is decoded is not the data handed in (rewritten, trimmed or replaced before the codec sees it): blocks that encode fine no longer decode")
 	}
 	c.Floor("C13.U9-decodes-bytes-as-given", 2)
+	decodedHandedOnAsDecoded(c, "C13.U6-decoded-handed-on")
 	c.Floor("C13.U1-foreign-prototype-rebuilt", 3)
 	c.Floor("C13.U2-prototype-type-pairing", 6)
 	c.Floor("C13.U6-unwrapped-unmodified", 3)
@@ -440,6 +442,7 @@ func runC13(c *Ctx) {
 	// encoding and writes them by name when decoding, so two same-typed fields in another order than the schema's
 	// are exchanged on the wire (and a generic-prototype decode then disagrees with a typed one)
 	nMirror := 0
+	nOptBad, nOptStructs := 0, 0
 	for _, rel := range []string{schemaPkg, headPkg} {
 		p := c.pkg(rel)
 		if p == nil {
@@ -472,11 +475,28 @@ func runC13(c *Ctx) {
 						same = false
 					}
 				}
+				// a field the schema calls optional (or nullable) is one whose Go type can tell "absent" from "empty": a
+				// pointer or an interface. A slice or string cannot — an empty list is written out, read back as absent and
+				// written again without the key: the block gets another CID on its second trip
+				if same {
+					opt := ipldOptional(string(data))[name]
+					for i := 0; i < st.NumFields(); i++ {
+						_, isPtr := st.Field(i).Type().Underlying().(*types.Pointer)
+						_, isIface := st.Field(i).Type().Underlying().(*types.Interface)
+						if (opt[fields[i]] && !isPtr && !isIface) || (isPtr && !opt[fields[i]]) {
+							nOptBad++
+							c.Bad("C13.U8-optional-fields-distinguishable", rel+"."+name+"."+st.Field(i).Name(), st.Field(i).Pos(), "schema optionality ("+fmt.Sprint(opt[fields[i]])+") and Go type ("+st.Field(i).Type().String()+") disagree: an optional field of a type without a distinct 'absent' value (slice, string, bytes) does not survive store → load → store with the same CID; a pointer field that is not optional cannot be nil")
+						}
+					}
+					nOptStructs++
+				}
 				c.Check(same, "C13.U8-go-structs-mirror-schema", rel+"."+name, tn.Pos(), "Go fields ["+strings.Join(goNames, " ")+"] are the schema's, in the schema's order", "the Go struct's fields ["+strings.Join(goNames, " ")+"] are not the schema's ["+strings.Join(fields, " ")+"] in the same order: bindnode encodes by position and decodes by name, so fields are exchanged on the wire")
 			}
 		}
 	}
 	c.Floor("C13.U8-go-structs-mirror-schema", 5)
+	c.Check(nOptBad == 0 && nOptStructs >= 5, "C13.U8-optional-fields-distinguishable", "schemas › optional ⇒ pointer or interface, pointer ⇒ optional", token.NoPos, fmt.Sprint(nOptStructs)+" structs: every optional (nullable) field is pointer- or interface-typed, every pointer field optional", "optionality and Go types disagree (see above), or fewer structs than expected were compared")
+	c.Floor("C13.U8-optional-fields-distinguishable", 1)
 
 	// ---- U3 decode helper ---------------------------------------------------------------------------------
 	if d := c.RoleFn("schema.decode"); d != nil {
@@ -611,6 +631,90 @@ func ipldStructs(src string) map[string][]string {
 			cur = ""
 		case cur != "":
 			out[cur] = append(out[cur], f[0])
+		}
+	}
+	return out
+}
+
+// decodedHandedOnAsDecoded: the byte decoders return the record the unwrap step produced, with no field of it
+// written in between (a "normalised" provider ID or address list is no longer the value the signature covers, and
+// no longer re-encodes to the block it was read from). Shared by C05 and C13.
+func decodedHandedOnAsDecoded(c *Ctx, rule string) {
+	for _, name := range []string{"BytesToAdvertisement", "BytesToEntryChunk"} {
+		f := c.Func(schemaPkg, name)
+		if f == nil {
+			c.Unk(rule, "ingest/schema."+name, token.NoPos, "not found")
+			continue
+		}
+		want := f.SSA.Signature.Results().At(0).Type()
+		var rec *X
+		n := 0
+		instrs(f.SSA, func(in ssa.Instruction) {
+			call, ok := in.(*ssa.Call)
+			if !ok {
+				return
+			}
+			res := call.Call.Signature().Results()
+			if res.Len() != 2 || !isErrorType(res.At(1).Type()) {
+				return
+			}
+			if p, ok := res.At(0).Type().(*types.Pointer); ok && types.Identical(p.Elem(), want) {
+				n++
+				rec = &X{Op: "extract", Name: "0", Args: []*X{c.E(call)}, V: nil}
+				for _, r := range *call.Referrers() {
+					if ex, ok := r.(*ssa.Extract); ok && ex.Index == 0 {
+						rec = c.E(ex)
+					}
+				}
+			}
+		})
+		if n != 1 {
+			c.Unk(rule, f.Name+" › record from the unwrap step", f.SSA.Pos(), "expected one call yielding (*"+want.String()+", error), found "+fmt.Sprint(n))
+			continue
+		}
+		modified := storesRootedAt(c, f.SSA, rec)
+		okRet, nRet := true, 0
+		for _, b := range f.SSA.Blocks {
+			ret, isRet := b.Instrs[len(b.Instrs)-1].(*ssa.Return)
+			if !isRet || b.Comment == "recover" || len(ret.Results) != 2 || c.RetX(ret, 1).Op != "nil" {
+				continue
+			}
+			nRet++
+			r := c.RetX(ret, 0)
+			if !(r != nil && r.Op == "deref" && Same(r.Args[0], rec)) {
+				okRet = false
+			}
+		}
+		c.Check(!modified.IsValid() && okRet && nRet > 0, rule, f.Name+" › record handed on as decoded", f.SSA.Pos(), "success returns the unwrapped record itself and no field of it is stored to", "the decoded record is changed between unwrapping and return (at "+c.pos(modified)+") or something else is returned: the value no longer matches what was signed and encoded")
+	}
+	c.Floor(rule, 2)
+}
+
+// ipldOptional: per struct of an IPLD schema, the fields declared optional or nullable.
+func ipldOptional(src string) map[string]map[string]bool {
+	out := map[string]map[string]bool{}
+	cur := ""
+	for _, line := range strings.Split(src, "\n") {
+		t := strings.TrimSpace(line)
+		if i := strings.Index(t, "#"); i >= 0 {
+			t = strings.TrimSpace(t[:i])
+		}
+		if t == "" {
+			continue
+		}
+		f := strings.Fields(t)
+		switch {
+		case cur == "" && len(f) >= 3 && f[0] == "type" && f[2] == "struct":
+			cur = f[1]
+			out[cur] = map[string]bool{}
+		case cur != "" && strings.HasPrefix(t, "}"):
+			cur = ""
+		case cur != "":
+			for _, w := range f[1:] {
+				if w == "optional" || w == "nullable" {
+					out[cur][f[0]] = true
+				}
+			}
 		}
 	}
 	return out
